@@ -4,7 +4,7 @@ use crate::runtime::range::range_len;
 use crate::runtime::utilities::get_range;
 use garnish_lang_traits::SymbolListPart;
 use garnish_lang_traits::helpers::{iterate_concatenation_mut, iterate_rev_concatenation_mut};
-use garnish_lang_traits::{GarnishDataType, GarnishData, GarnishDataFactory, GarnishNumber, RuntimeError, TypeConstants};
+use garnish_lang_traits::{ErrorType, GarnishDataType, GarnishData, GarnishDataFactory, GarnishNumber, RuntimeError, TypeConstants};
 
 pub fn make_list<Data: GarnishData>(this: &mut Data, len: Data::Size) -> Result<Option<Data::Size>, RuntimeError<Data::Error>> {
     if len > this.get_register_len() {
@@ -312,6 +312,15 @@ pub(crate) fn access_with_symbol<Data: GarnishData>(
             Ok(iterate_rev_concatenation_mut(this, value, |this, _index, addr| get_value_if_association(this, addr, sym.clone()))?.0)
         }
         _ => Err(RuntimeError::unsupported_types()),
+    }
+}
+
+/// A lookup on a value that has no items reports the 'unsupported types' code. For a caller
+/// that treats a failed lookup as "no such item" that is the same as `None`.
+pub(crate) fn absorb_unsupported<T, E: std::error::Error + 'static>(result: Result<Option<T>, RuntimeError<E>>) -> Result<Option<T>, RuntimeError<E>> {
+    match result {
+        Err(e) if e.get_type() == ErrorType::UnsupportedOpTypes => Ok(None),
+        other => other,
     }
 }
 
